@@ -20,7 +20,7 @@ from collections import OrderedDict
 from copy import deepcopy
 from functools import partial
 from itertools import chain
-from os import path
+from os import path, remove, replace
 from textwrap import indent
 
 from black import Mode, format_str
@@ -572,10 +572,34 @@ def file(node, filename, mode="a", skip_black=False):
         # Never glue the appended definition onto an unterminated last line
         with open(filename, "rt") as f:
             existing = f.read()
-        if existing and not existing.endswith("\n"):
-            src = "\n{src}".format(src=src)
-    with open(filename, mode) as f:
-        f.write(src)
+        src = "{existing}{sep}{src}".format(
+            existing=existing,
+            sep="" if not existing or existing.endswith("\n") else "\n",
+            src=src,
+        )
+    write_atomically(filename, src)
+
+
+def write_atomically(filename, src):
+    """
+    Write `src` to `filename` such that a failure part-way never leaves a truncated or half-written file:
+      the content goes to a temporary sibling which then replaces the target.
+
+    :param filename: emit to this file
+    :type filename: ```str```
+
+    :param src: Complete new content of the file
+    :type src: ```str```
+    """
+    tmp_filename = "{filename}.doctrans.tmp".format(filename=filename)
+    try:
+        with open(tmp_filename, "wt") as f:
+            f.write(src)
+        replace(tmp_filename, filename)
+    except BaseException:
+        if path.isfile(tmp_filename):
+            remove(tmp_filename)
+        raise
 
 
 def function(
@@ -766,4 +790,11 @@ def function(
     )
 
 
-__all__ = ["argparse_function", "class_", "docstring", "file", "function"]
+__all__ = [
+    "argparse_function",
+    "class_",
+    "docstring",
+    "file",
+    "function",
+    "write_atomically",
+]
